@@ -1167,7 +1167,8 @@ class _HitenBase(_SerializeBase, ABC):
                 # only overwrites entries whose service value is not None, so a stale copy
                 # would be saved (and resurrected by the next load) once the service has
                 # invalidated the attribute.
-                for attr_name in ('_period', '_trajectory', '_times', '_stability_info'):
+                for attr_name in ('_period', '_trajectory', '_times', '_stability_info',
+                                  '_eigendecomposition_options', '_eigendecomposition_config'):
                     if attr_name in self._computed_properties_to_restore and hasattr(target, attr_name):
                         self.__dict__.pop(attr_name, None)
             # Clean up the temporary storage
